@@ -402,7 +402,8 @@ func checkC17(c *chk.Ctx) {
 		c.Broken("%v", err)
 	}
 	defer w.Close()
-	em, err := w.Emit(set, schema, work.EmitOpts{Plugins: []string{"go-http", "go-client"}})
+	// (the optional mock server implementation is emitted as well: its shared state is part of the package)
+	em, err := w.Emit(set, schema, work.EmitOpts{Plugins: []string{"go-http", "go-client"}, Params: map[string]string{"go-http": "generate_mock=true"}})
 	if err != nil {
 		c.Broken("%v", err)
 	}
@@ -413,7 +414,7 @@ func checkC17(c *chk.Ctx) {
 			c.Done()
 		}
 	}
-	if err := w.WriteDriver("drv", []work.PkgSpec{{ImportPath: "scratch/gen/cc", Server: true, Client: true}}); err != nil {
+	if err := w.WriteDriver("drv", []work.PkgSpec{{ImportPath: "scratch/gen/cc", Server: true, Client: true, Mock: true}}); err != nil {
 		c.Broken("%v", err)
 	}
 	bin, bout, err := w.BuildBinary("./drv", "drvrace", "-race")
@@ -541,6 +542,7 @@ func checkC17(c *chk.Ctx) {
 	// cold start: every group that runs in parallel also runs as the FIRST thing a new process does (no
 	// earlier request has initialised whatever the emitted package initialises lazily)
 	coldEv := map[int]map[string][]drv.Event{}
+	var coldCrash []string
 	var coldGroups []int
 	for g := 1; g <= nGroups; g++ {
 		if ops[byGroup[g][0].id-1].Par > 1 {
@@ -565,12 +567,45 @@ func checkC17(c *chk.Ctx) {
 				mu.Lock()
 				coldEv[g] = ev
 				for _, r := range rc {
+					if strings.HasPrefix(r, "CRASH ") {
+						coldCrash = append(coldCrash, fmt.Sprintf("(cold start, group %d at parallelism %d) %s", g, gops[0].Par, r))
+						continue
+					}
 					races = append(races, fmt.Sprintf("(cold start, group %d at parallelism %d) %s", g, gops[0].Par, r))
 				}
 				mu.Unlock()
 			}(g)
 		}
 		wg.Wait()
+	}
+	// the emitted mock server behind the same routes: its replies are random by design (nothing to compare with
+	// a call alone), but whatever it shares between requests must be safe - parallel requests, cold, race detector on
+	{
+		var mops []drv.Op
+		for _, in := range insts {
+			if in.kind == "raw" && len(mops) < 400 {
+				op := ops[in.id-1]
+				op.Op, op.Group, op.Par, op.Case = "mockraw", 1, 16, 900000+len(mops)
+				op.Handler = drv.HandlerCfg{}
+				mops = append(mops, op)
+			}
+		}
+		_, rc := runDrvRace(c, bin, w.Root, mops, "mock")
+		for _, r := range rc {
+			races = append(races, "(mock server, "+fmt.Sprint(len(mops))+" requests at parallelism 16) "+r)
+		}
+		c.Set("mock_requests", len(mops))
+	}
+	if len(coldCrash) > 0 {
+		// a cold-start run did not complete: the trace is the crash itself (there is no such action)
+		seg := &trace.Segment{ID: 0, Lines: []string{jsonLine(map[string]any{"event": "Reset", "group": 0, "kind": "crash", "par": 0}),
+			jsonLine(map[string]any{"event": "Race", "detail": firstN(coldCrash[0], 800)})}}
+		if v, err := trace.Validate("Trace_Conc", "Trace_Conc.cfg", map[string]string{}, []*trace.Segment{seg}, 1); err == nil && len(v.Rejected) == 1 {
+			rp := c.WriteReplay(map[string]any{"property": c.ID, "spec": "Trace_Conc", "stage": "cold-start run", "report": coldCrash[0], "seed": c.Seed})
+			c.Violation(rp, "the Go runtime stopped the process during a cold-start run: "+firstN(coldCrash[0], 300))
+			c.Done()
+		}
+		c.Broken("crash trace was not rejected by Trace_Conc")
 	}
 	type segRun struct {
 		g    int
